@@ -5,6 +5,7 @@ import (
 	"fmt"
 
 	"github.com/glebziz/fs_db/internal/model"
+	"github.com/glebziz/fs_db/internal/utils/vhook"
 )
 
 func (u *UseCase) Get(ctx context.Context) (model.Dirs, error) {
@@ -27,10 +28,13 @@ func (u *UseCase) Get(ctx context.Context) (model.Dirs, error) {
 		}
 	}
 
+	vhook.At("dir.get.roots")
+
 	dirs, err := u.dRepo.Get(ctx)
 	if err != nil {
 		return nil, fmt.Errorf("get: %w", err)
 	}
+	vhook.At("dir.get.snapshot")
 
 	for i, dir := range dirs {
 		if dir.Count < u.maxCount {
@@ -41,6 +45,7 @@ func (u *UseCase) Get(ctx context.Context) (model.Dirs, error) {
 		if err != nil {
 			return nil, fmt.Errorf("remove: %w", err)
 		}
+		vhook.At("dir.get.removed")
 
 		dirs[i].Count = 0
 		dirs[i].Name = u.nameGen.Generate()
